@@ -31,6 +31,10 @@ def corpus():
                [("set", b"a", b"1"), ("merge",), ("set", b"k", b"v"), ("merge",), ("del", b"k"), ("merge",)]),
         S.Case("corpus-fsync-rowless-del", {"mfs": 2 ** 31, "cache": 256, "conc": 1, "frag": (0, 1), "dead": 0, "small": 0, "sync": True},
                [("set", b"k", b"v"), ("merge",), ("del", b"k"), ("merge",), ("set", b"k", b"w"), ("del", b"x"), ("merge",)]),
+        # a key above the write buffer: its hint entry takes two writes; the second fails inside a merge, a later merge removes the
+        # inputs (fixed defect 97ca669: the index entry was moved to the merge file before its hint entry was written)
+        S.Case("corpus-merge-bigkey-hint", {"mfs": 2 ** 31, "cache": 256, "conc": 1, "frag": (0, 1), "dead": 0, "small": 0, "sync": False},
+               [("set", b"K" * 9000, b"v"), ("set", b"a", b"1"), ("set", b"a", b"2"), ("merge",), ("merge",)]),
         S.Case("corpus-unlink", {"mfs": 0, "cache": 256, "conc": 1, "frag": (0, 1), "dead": 0, "small": 10 ** 9, "sync": False},
                [("set", b"k", b"v"), ("del", b"k"), ("set", b"x", b"y"), ("merge",), ("set", b"z", b"w")]),
     ]
@@ -241,6 +245,11 @@ def main(tier, seed):
     for c in big:
         c.ops = [("set", b"big", bytes([66]) * r) for r in (8180, 20000)][:1] + c.ops
     bases += big
+    # keys above the write buffer (a hint entry in two writes), with merges
+    bigk = S.gen_cases(rng, max(3, n // 12), PROFILE, maxlen=6, prefix="h")
+    for c in bigk:
+        c.ops = [("set", bytes([75]) * 9000, b"v")] + c.ops + [("merge",), ("merge",)]
+    bases += bigk
     # strip reads from the workloads (they are appended after the fault)
     for c in bases:
         c.ops = [o for o in c.ops if o[0] in ("set", "del", "merge", "reopen")]
